@@ -11,6 +11,7 @@ package main
 import (
 	"context"
 	"fmt"
+	"hash/crc32"
 	"os"
 	"sort"
 	"strconv"
@@ -21,7 +22,11 @@ import (
 	"github.com/TarsCloud/TarsGo/tars/protocol/res/endpointf"
 	"github.com/TarsCloud/TarsGo/tars/protocol/res/requestf"
 	"github.com/TarsCloud/TarsGo/tars/registry"
+	"github.com/TarsCloud/TarsGo/tars/selector"
+	"github.com/TarsCloud/TarsGo/tars/selector/consistenthash"
+	"github.com/TarsCloud/TarsGo/tars/selector/modhash"
 	"github.com/TarsCloud/TarsGo/tars/util/current"
+	"github.com/TarsCloud/TarsGo/tars/util/endpoint"
 	"verif/common"
 	"verif/e1"
 	"verif/tnet"
@@ -34,12 +39,21 @@ const callTimeoutMs = 1000
 
 // ---- registrar ---------------------------------------------------------------
 
-type reg struct{ n int }
+type reg struct {
+	n      int
+	static bool // endpoints are published with static weights 100, 8, 40, ...
+}
+
+var staticWeights = []int32{100, 8, 40}
 
 func (r reg) eps() []endpointf.EndpointF {
 	var out []endpointf.EndpointF
 	for i := 0; i < r.n; i++ {
-		out = append(out, endpointf.EndpointF{Host: fmt.Sprintf("10.0.0.%d", i+1), Port: int32(basePort + i), Timeout: 3000, Istcp: 1, Weight: 100})
+		e := endpointf.EndpointF{Host: fmt.Sprintf("10.0.0.%d", i+1), Port: int32(basePort + i), Timeout: 3000, Istcp: 1, Weight: 100}
+		if r.static {
+			e.Weight, e.WeightType = staticWeights[i%len(staticWeights)], 1
+		}
+		out = append(out, e)
 	}
 	return out
 }
@@ -148,6 +162,7 @@ type world struct {
 	calls       int
 	keyCached   string
 	hashRoute   map[string]int
+	static      bool
 }
 
 func (w *world) now() int64 { return (vm.Now() - w.start) / 1e9 }
@@ -159,11 +174,15 @@ func (w *world) snapshot() ([]tars.VerifEpState, int, string) {
 func (w *world) apply(ev string) {
 	before, pqBefore, _ := w.snapshot()
 	switch {
-	case ev == "call" || strings.HasPrefix(ev, "hcall"):
+	case ev == "call" || strings.HasPrefix(ev, "hcall") || strings.HasPrefix(ev, "mcall"):
 		ctx := current.ContextWithClientCurrent(context.Background())
 		if strings.HasPrefix(ev, "hcall") {
 			code, _ := strconv.Atoi(ev[5:])
 			current.SetClientHash(ctx, 1, uint32(code)) // consistent hash
+		}
+		if strings.HasPrefix(ev, "mcall") {
+			code, _ := strconv.Atoi(ev[5:])
+			current.SetClientHash(ctx, 0, uint32(code)) // mod hash
 		}
 		var resp requestf.ResponsePacket
 		w.calls++
@@ -179,6 +198,18 @@ func (w *world) apply(ev string) {
 			}
 		}
 		vm.Log("t=%d %s -> ep%d %s", w.now(), ev, i, res)
+		if (strings.HasPrefix(ev, "hcall") || strings.HasPrefix(ev, "mcall")) && i >= 0 && i < w.n && pqBefore == 0 {
+			if want, ok := w.expectedRoute(ev, before); ok && want != i {
+				kind := "consistent-hash"
+				if ev[0] == 'm' {
+					kind = "mod-hash"
+				}
+				if w.static {
+					kind += ":static-weights"
+				}
+				w.bad = append(w.bad, fmt.Sprintf("hashed-call-not-routed-by-the-hash-rules:%s\n%s went to ep%d, the rules give ep%d", kind, ev, i, want))
+			}
+		}
 		if strings.HasPrefix(ev, "hcall") && i >= 0 && i < w.n && pqBefore == 0 {
 			// hash routing is a function of the code and the active set
 			set := ""
@@ -293,6 +324,58 @@ func (w *world) judge(ev string, before, after []tars.VerifEpState) {
 	}
 }
 
+// expectedRoute computes where the hash rules send the call, from selectors
+// built directly over the endpoints that are in rotation.
+func (w *world) expectedRoute(ev string, before []tars.VerifEpState) (int, bool) {
+	code64, _ := strconv.ParseUint(ev[5:], 10, 32)
+	var act []endpoint.Endpoint
+	allStatic := true
+	for i, e := range (reg{w.n, w.static}).eps() {
+		if i < len(before) && before[i].InActive {
+			ep := endpoint.Tars2endpoint(e)
+			act = append(act, ep)
+			if ep.WeightType != 1 {
+				allStatic = false
+			}
+		}
+	}
+	if len(act) == 0 {
+		return 0, false
+	}
+	// the weight switch follows the whole registry list, as the manager derives it
+	for _, e := range (reg{w.n, w.static}).eps() {
+		if e.WeightType != 1 {
+			allStatic = false
+		}
+	}
+	sort.Slice(act, func(i, j int) bool {
+		return crc32.ChecksumIEEE([]byte(act[i].Key)) < crc32.ChecksumIEEE([]byte(act[j].Key))
+	})
+	var sel interface {
+		Select(selector.Message) (endpoint.Endpoint, error)
+	}
+	if ev[0] == 'h' {
+		c := consistenthash.New(allStatic, consistenthash.KetamaHash)
+		c.Refresh(act)
+		sel = c
+	} else {
+		m := modhash.New(allStatic)
+		m.Refresh(act)
+		sel = m
+	}
+	ep, err := sel.Select(hmsg(uint32(code64)))
+	if err != nil {
+		return 0, false
+	}
+	return int(ep.Port) - basePort, true
+}
+
+type hmsg uint32
+
+func (m hmsg) HashCode() uint32            { return uint32(m) }
+func (m hmsg) HashType() selector.HashType { return selector.ConsistentHash }
+func (m hmsg) IsHash() bool                { return true }
+
 func (w *world) key() string {
 	st, pq, cur := w.snapshot()
 	var b strings.Builder
@@ -314,9 +397,13 @@ func (w *world) key() string {
 
 // run replays history inside the current execution.
 func runHistory(n int, hist []string) (w *world) {
+	static := len(hist) > 0 && hist[0] == "static"
+	if static {
+		hist = hist[1:]
+	}
 	comm := tars.VerifNewCommunicator(tars.VerifClientOpts{AsyncInvokeTimeout: callTimeoutMs, ReadTimeout: 20 * time.Second, WriteTimeout: -1,
-		DialTimeout: 500 * time.Millisecond, Registrar: reg{n}, RefreshInterval: 3600000})
-	w = &world{n: n, start: vm.Now(), hashRoute: map[string]int{}}
+		DialTimeout: 500 * time.Millisecond, Registrar: reg{n, static}, RefreshInterval: 3600000})
+	w = &world{n: n, start: vm.Now(), hashRoute: map[string]int{}, static: static}
 	for i := 0; i < n; i++ {
 		s := &server{idx: i, addr: fmt.Sprintf("10.0.0.%d:%d", i+1, basePort+i)}
 		s.listen()
@@ -343,6 +430,7 @@ var longHistories = map[string][]string{
 	"all-blocked":                          {"set0=r", "set1=r", "call", "call", "call", "call", "call", "call", "call", "call", "call", "call", "call", "adv5", "adv1", "call", "call", "set1=h", "call", "call", "adv30", "call", "call"},
 	"ratio-rule":                           {"call", "call", "set0=r", "call", "call", "call", "call", "set0=h", "adv1", "call", "call", "adv60", "call", "call"},
 	"flapping":                             {"set0=r", "call", "call", "call", "call", "set0=h", "call", "call", "adv5", "set0=r", "call", "call", "call", "call", "call", "call", "adv1", "adv5", "call"},
+	"hashed-static-weights":                {"static", "hcall7", "mcall7", "hcall123456", "mcall8", "hcall99", "mcall9", "hcall4000000000", "mcall10", "hcall2000000000", "mcall11", "hcall3000000000", "mcall12", "call", "call", "set1=r", "hcall7", "mcall7", "hcall7", "mcall8", "hcall7", "mcall9", "hcall7", "mcall7", "hcall7", "mcall7", "adv5", "adv1", "hcall7", "mcall7", "hcall123456", "mcall8"},
 	"hashed":                               {"set1=r", "hcall7", "hcall7", "hcall123456", "hcall7", "hcall99", "hcall7", "hcall7", "hcall99", "hcall7", "hcall7", "adv5", "adv1", "hcall7", "hcall99", "set1=h", "adv30", "hcall7", "hcall99"},
 }
 
@@ -393,7 +481,11 @@ func histScenario(n int, hist []string, record func(choices string, o outcome)) 
 }
 
 func main() {
-	run := common.Start("C15", "model_checking")
+	prop := "C15"
+	if as := os.Getenv("C15_AS"); as != "" {
+		prop = as // the hashed-call histories also serve as the end-to-end part of C14
+	}
+	run := common.Start(prop, "model_checking")
 	if run.Replay != "" || os.Getenv("E1_WORKER") != "" {
 		// replay / worker mode needs the same case list: fall through
 	}
@@ -437,6 +529,9 @@ func main() {
 			step = 2
 		}
 		for p := 0; p <= len(h); p += step {
+			if p == 1 && h[0] == "static" {
+				continue
+			}
 			extend(h[:p], depth)
 		}
 		extend(h, depth)
@@ -455,6 +550,26 @@ func main() {
 		sc := histScenario(n, longHistories[name], nil)
 		sc.Name = "sched1 " + sc.Name
 		cases = append(cases, e1.Case{Sc: sc, Opt: vm.Options{Bound: 1, StrictDev: true}, Budget: budget, MinOutcomes: 1})
+	}
+	if only := os.Getenv("C15_ONLY"); only != "" {
+		var f []e1.Case
+		for _, c := range cases {
+			if only == "call" && !(strings.Contains(c.Sc.Name, "hcall") || strings.Contains(c.Sc.Name, "mcall")) {
+				continue
+			}
+			if strings.Contains(c.Sc.Name, only) || (only == "call" && (strings.Contains(c.Sc.Name, "hcall") || strings.Contains(c.Sc.Name, "mcall"))) {
+				f = append(f, c)
+			}
+		}
+		cases = f
+		if os.Getenv("C15_SHOW") != "" && len(cases) > 0 {
+			vm.StrictDeviations = true
+			r := vm.Replay(cases[len(cases)-1].Sc, nil)
+			fmt.Println(cases[len(cases)-1].Sc.Name)
+			fmt.Println(r.Status, r.ObsString())
+			fmt.Println(cases[len(cases)-1].Sc.Check(r))
+			os.Exit(0)
+		}
 	}
 	e1.Main(run, cases, []string{
 		"state = event history; seeds are prefixes of long scripted histories (reachable by construction), neighbourhoods of every seed are enumerated to the stated depth; canonical keys (distinct outcomes) are read from the real manager/adapter objects",
